@@ -135,17 +135,36 @@ pub fn property() -> Property {
         check_tier,
     )
     .floor(0.5);
+    // the tier depends on the *state* only: dirty or not, ahead (distance > 0) or not, pre-release
+    // present or not, post present or not — whatever their values
+    let tier_abs = RandomSub::<TierCase>::new(
+        "smart-tier-abstract",
+        (6_000, 120_000),
+        |_| {
+            (0usize..6, zg::vars(false), zg::vars(false), 1u64..50, (0u8..3, proptest::option::weighted(0.8, gens::num::u32_biased())), gens::num::u32_biased())
+                .prop_map(|(preset, a, mut b, d, pre, post)| {
+                    b.dirty = a.dirty;
+                    b.distance = match a.distance { Some(x) if x > 0 => Some(d), other => other };
+                    b.pre_release = a.pre_release.map(|_| pre);
+                    b.post = a.post.map(|_| post);
+                    TierCase { preset, a, b }
+                })
+                .boxed()
+        },
+        check_tier,
+    )
+    .floor(0.5);
     let _ = gens::pick::<u8>;
     Property {
         id: "C06",
-        rule: "cases = (valid schema, variable assignment) pairs: schemas are arbitrary valid mixes of var/str/uint/ts/custom components in the three sections; vars have nasty text, boundary numbers, nested custom JSON, unset fields. Oracle: reference renderer written from the placement rules (oracle::render on oracle::sanitize + oracle::calendar), exact string equality for SemVer and PEP 440, through the From conversions and through `version --source stdin`. smart-tier: two assignments agreeing on dirty/distance/pre_release/post must get the same schema from each smart preset. Non-trivial = custom schema in which some component contributes != 1 identifier or is an unset variable (render-model); the two assignments differ (smart-tier); distinct = distinct cases.",
+        rule: "cases = (valid schema, variable assignment) pairs: schemas are arbitrary valid mixes of var/str/uint/ts/custom components in the three sections; vars have nasty text, boundary numbers, nested custom JSON, unset fields. Oracle: reference renderer written from the placement rules (oracle::render on oracle::sanitize + oracle::calendar), exact string equality for SemVer and PEP 440, through the From conversions and through `version --source stdin`. smart-tier: two assignments agreeing on dirty/distance/pre_release/post must get the same schema from each smart preset; smart-tier-abstract: the same when only the state agrees (dirty flag, distance zero/positive, pre-release and post present/absent) and the values differ. Non-trivial = custom schema in which some component contributes != 1 identifier or is an unset variable (render-model); the two assignments differ (smart-tier); distinct = distinct cases.",
         assumptions: vec![
             "epoch is None or >= 1 (epoch 0 is normalised away by the CLI path and the statement does not say whether 0 counts as set)",
             "timestamps <= 9999-12-31; ts() patterns are the 16 documented names",
             "PEP 440 strings are compared only when every number in a numeric slot fits u32 (above that: known finding F12b under C07)",
             "integer-valued = only ASCII digits after trimming whitespace, as the uint sanitiser documents",
         ],
-        subs: vec![render.boxed(), tier.boxed()],
+        subs: vec![render.boxed(), tier.boxed(), tier_abs.boxed()],
         known_repro: vec![],
     }
 }
